@@ -86,6 +86,26 @@ class C12Conversions(Harness):
                          sp.radius_from_surface(sp.surface_from_radius(r, dim), dim), r)
             Ra = sp.radius_from_surface(env.array([surf, S(env, r2, dim)]), dim)
             env.prove_eq("radius_from_surface(array)[1]", Ra[1], r2)
+        # --- array arguments of higher rank keep their shape and agree element-wise with the scalar variants
+        A2 = env.array([[r, r2], [r2, r], [r, r]])
+        for nm, fn, ref in (
+                ("volume_from_radius", lambda x: sp.volume_from_radius(x, dim), lambda x: V(env, x, dim)),
+                ("volume_compiled", sp.make_volume_from_radius_compiled(dim), lambda x: V(env, x, dim)),
+                ("surface_from_radius", lambda x: sp.surface_from_radius(x, dim), lambda x: S(env, x, dim)),
+                ("surface_compiled", sp.make_surface_from_radius_compiled(dim), lambda x: S(env, x, dim))):
+            out = env.np.asarray(fn(A2))
+            env.prove(f"{nm}(3x2 array) keeps the shape", tuple(out.shape) == (3, 2))
+            if tuple(out.shape) == (3, 2):
+                env.prove_eq(f"{nm}(3x2 array)[0,1]", out[0, 1], ref(r2))
+                env.prove_eq(f"{nm}(3x2 array)[2,0]", out[2, 0], ref(r))
+        VA = env.array([[vol, V(env, r2, dim)], [V(env, r, dim), vol]])
+        for nm, fn in (("radius_from_volume", lambda x: sp.radius_from_volume(x, dim)),
+                       ("radius_compiled", sp.make_radius_from_volume_compiled(dim))):
+            out = env.np.asarray(fn(VA))
+            env.prove(f"{nm}(2x2 array) keeps the shape", tuple(out.shape) == (2, 2))
+            if tuple(out.shape) == (2, 2):
+                env.prove_eq(f"{nm}(2x2 array)[0,1]", out[0, 1], r2)
+                env.prove_eq(f"{nm}(2x2 array)[1,0]", out[1, 0], r)
         # --- surface is the derivative of the volume (sandwich form, pins S = V' for continuous S)
         dV = env.num(sp.volume_from_radius(r + h, dim)) - env.num(sp.volume_from_radius(r, dim))
         env.prove_le("S(r)*h <= V(r+h)-V(r)", env.num(sp.surface_from_radius(r, dim)) * h, dV)
@@ -145,4 +165,38 @@ class C12Droplet(Harness):
         env.observe("radius after set", d.radius)
 
 
-HARNESSES = [C12Conversions, C12Droplet]
+class C12Perturbed2D(Harness):
+    name = "C12Perturbed2D"
+    prop = "C12"
+    bounds = ("PerturbedDroplet2D (0 or 2 amplitudes in [-1/2,1/2]): setting the volume and reading it back, from any "
+              "initial radius >= 0 (zero included); volume formula pi r^2 (1 + sum a^2/2)")
+    stubs = ["numba decorators = identity"]
+
+    def configs(self, tier):
+        return [dict(modes=0), dict(modes=2)]
+
+    def sample(self, cfg, rng):
+        w = dict(r=F(rng.randint(0, 3000), 1000), vol=F(rng.randint(0, 9000), 1000), p0=F(1, 3), p1=F(-2, 7))
+        for k in range(cfg["modes"]):
+            w[f"a{k}"] = F(rng.randint(-500, 500), 1000)
+        return w
+
+    def body(self, env, cfg):
+        p = [env.real("p0"), env.real("p1")]
+        r = env.real("r", 0)
+        vol = env.real("vol", 0)
+        amps = [env.real(f"a{k}", F(-1, 2), F(1, 2)) for k in range(cfg["modes"])]
+        d = env.D.PerturbedDroplet2D(p, r, 1, amps if amps else None)
+        term = 1 + sum((a * a for a in amps), env.const(0)) / 2
+        env.prove_eq("volume = pi r^2 (1 + sum a^2 / 2)", d.volume, env.pi * r * r * term)
+        d.volume = vol
+        env.prove_eq("d.volume = v; d.volume == v", d.volume, vol)
+        env.prove_le("radius after setting the volume >= 0", 0, d.radius)
+        env.prove_eq("radius after setting the volume", env.pi * env.num(d.radius) * env.num(d.radius) * term, vol)
+        for i in range(2):
+            env.prove_eq(f"setter keeps position[{i}]", d.position[i], p[i])
+        env.cover("initial radius zero", r == 0)
+        env.observe("radius", d.radius)
+
+
+HARNESSES = [C12Conversions, C12Droplet, C12Perturbed2D]
